@@ -256,9 +256,71 @@ def run(ck: Check, prog: Program) -> None:
     _iface_shape(ck, prog)
     _encodable(ck, prog)
     _none_leak(ck, prog)
+    _gen_stateless(ck, prog)
+    _name_source(ck, prog)
 
 
 EXTRACTORS_PKG = 'pjrpc.server.specs.extractors'
+
+
+def _gen_stateless(ck: Check, prog: Program) -> None:
+    """GEN-STATELESS: generation is a function of the registry alone — nothing in the call tree of schema() (generator, extractors,
+    helpers) writes state that outlives the call (instance / class / module state): a cache filled during one generation changes
+    what the next generation, or another method's entry, contains."""
+    from ..effects import Effects
+    for cq in (OPENAPI, OPENRPC):
+        ci = prog.cls(cq)
+        roots = [ci] + [c for c in prog.classes.values() if c.module.name.startswith(EXTRACTORS_PKG) and any(
+            isinstance(b, ClassInfo) and b.qualname == BASE_EXTRACTOR for b in prog.mro(c))]
+        eff = Effects(prog, [ci.methods['schema']], roots)
+        ws = [w for w in eff.shared_writes() if w.target.split(':')[0] in ('self', 'module', 'class')]
+        ck.ob('GEN-STATELESS', f'{ci.name}.schema: the generation call tree ({len(eff.tree)} functions) writes no instance / class / module state', not ws,
+              sample={'functions': len(eff.tree)})
+        for w in ws:
+            ck.finding('GEN-STATELESS', w.func.qualname, f'{w.why} on {w.target.split(":")[0]} state: {w.text[:50]}', w.func.module.rel, w.line,
+                       f'`{w.text}` writes state that outlives the generation ({w.target}): what is documented then depends on earlier '
+                       f'generations / other methods (e.g. a model cached under a name is reused for a different function exposed under the same name)')
+
+
+def _name_source(ck: Check, prog: Program) -> None:
+    """NAME-SOURCE: every name handed to the schema builders / extractors while describing a method is that Method's exposed name
+    (`method.name`), not metadata kept on the function object (shared by all registrations of the function)."""
+    from ..flow import Flow
+    from ..util import stmt_node_of
+    n_sites = 0
+    for cq in (OPENAPI, OPENRPC):
+        ci = prog.cls(cq)
+        for f in ci.methods.values():
+            if not (f.name.startswith('_extract') or f.name == 'schema'):
+                continue
+            mparam = next((p.arg for p in f.params[1:] if p.arg == 'method'), None)
+            cfg = None
+            for x in walk_own(f.node):
+                if not isinstance(x, ast.Call):
+                    continue
+                fn = dotted(x.func) or ''
+                is_builder = fn == 'build_request_schema' or fn.endswith('.build_request_schema')
+                is_extractor = isinstance(x.func, ast.Attribute) and x.func.attr.startswith('extract_') and x.func.attr.endswith('_schema') and \
+                    len(x.args) >= 2
+                if not (is_builder or is_extractor) or not x.args:
+                    continue
+                if cfg is None:
+                    cfg = CFG(f, prog)
+                n_ = stmt_node_of(cfg, x)
+                if n_ is None:
+                    continue
+                n_sites += 1
+                leafs = [dotted(al.expr) for al in Flow(cfg).alts(n_, x.args[0])]
+                ok = bool(leafs) and all(l is not None and l.endswith('.name') and (mparam is None or l == f'{mparam}.name' or l.split('.')[0] != 'self') and
+                                         'meta' not in l for l in leafs)
+                ck.ob('NAME-SOURCE', f'{short(f.qualname)}: `{fn or x.func.attr}` is given the exposed name of the method being described', ok)
+                if not ok:
+                    ck.finding('NAME-SOURCE', f.qualname, f'name argument {norm(x.args[0])[:40]}', f.module.rel, x.lineno,
+                               f'`{norm(x)[:80]}` is given `{norm(x.args[0])}` = {leafs} as the method name: the entry must be built for the name the '
+                               f'method is exposed under (method.name); metadata stored on the function object holds the name of the LAST registration '
+                               f'of that function, so an alias / merged copy is documented under another method\'s name')
+    ck.require('NAME-SOURCE', 'schema builder / extractor call sites', n_sites, 4)
+
 
 
 def _unset_in_plain_mappings(prog: Program) -> List[Tuple[FuncInfo, ast.AST, str]]:
